@@ -120,6 +120,9 @@ static_assert(!std::is_convertible_v<int, Arch> && !std::is_convertible_v<double
 static_assert(!std::numeric_limits<Arch>::is_specialized && !std::numeric_limits<WrapD>::is_specialized);
 static_assert(!std::is_convertible_v<double, WrapD> && !std::is_convertible_v<int, WrapD> && !std::is_convertible_v<WrapD, double>);
 
+#ifdef VERIF_EIGEN
+#define BSPLINE_INTERPOLATION_USE_EIGEN 1
+#endif
 #include <bspline/Core.h>
 #include <bspline/interpolation/interpolation.h>
 #if defined(VERIF_FP) && !defined(VERIF_NO_QUAD)
